@@ -234,6 +234,13 @@ pub fn check_recovery(
     let cfg1 = Cfg { reuse: plan.reuse1, ..base_cfg };
     let wal_before: Vec<String> = img.file_names().into_iter().filter(|p| p.contains("/wal/")).collect();
     let db = DB::open(options(&img, &cfg1)).map_err(|e| format!("open after the crash failed: {e:?}"))?;
+    if plan.dircheck {
+        // Leftovers of the crash (orphan tables, temp files, superseded manifests and logs) are
+        // reclaimed by the open itself and the compactions it schedules: nothing has been read yet,
+        // so no version is pinned and no further reclamation opportunity is needed.
+        db.verif_wait_idle(Duration::from_secs(600));
+        dir_exact(&db, &img).map_err(|e| format!("after recovery and quiescence (before any read): {e}"))?;
+    }
     let got = scan(&db).map_err(|e| format!("scan after recovery failed: {e}"))?;
     let mut matched: Option<usize> = None;
     for (i, m) in accept.iter().enumerate() {
